@@ -206,7 +206,11 @@ function fmt(v) {
   try {
     return JSON.stringify(v) ?? String(v);
   } catch {
-    return String(v);
+    try {
+      return String(v);
+    } catch {
+      return Object.prototype.toString.call(v);
+    }
   }
 }
 export { isPlainish };
